@@ -341,3 +341,13 @@ package treeset
 //@   ensures [C04 C13 C15 C17] fresh(result) && Inv(result) && fresh(result.tree)
 //@   ensures [C04] forall x like keylike(result) :: Mem(result, x) <==> (exists j :: 0 <= j && j < len(values) && result.tree.Comparator(x, values[j]) == 0)
 //@   ensures [C04 C15] len(values) == 0 ==> N(result) == 0
+
+//@ -- String: starts with the container's name; reads only (C15, C18)
+//@ func Set.String
+//@   requires Inv(set)
+//@   modifies nothing
+//@   ensures [C15 C17 C18] hasPrefix(result, "TreeSet")
+//@   loop 1:
+//@     invariant 0 - 1 <= rangeindex && rangeindex < rangelen && (rangelen == 0 ==> rangeindex == 0 - 1) && rangelen >= 0
+//@     invariant isnil(items) || fresh(arr(items))
+//@     decreases rangelen - rangeindex
